@@ -620,7 +620,7 @@ func (p NewChannelReqPayload) MarshalBinary() ([]byte, error) {
 	if freq/100 >= 16777216 { // 2^24
 		return b, errors.New("lorawan: max value of Freq is 2^24 - 1")
 	}
-	if freq%100 != 0 {
+	if freq%100 != 0 || p.Freq%2 != 0 {
 		return b, errors.New("lorawan: Freq must be a multiple of 100 (200 for 2.4GHz frequencies)")
 	}
 	if p.MaxDR > 15 {
